@@ -232,6 +232,8 @@ func tokRejClass(m string) string {
 		return "tooOld"
 	case has("not a valid timestamp"):
 		return "badTime"
+	case has("is not valid before"):
+		return "notYet"
 	case has("subject claim is not a string"):
 		return "subType"
 	case has("missing required subject"):
